@@ -71,7 +71,8 @@ CodeInfo(i) ==
     /\ UNCHANGED <<prog, codes, ctr, blk>>
 
 (* label: the proxy's default label is "Contract"; admin "" = none, "<empty>" = the empty string given as the admin; *)
-(* salt "" = plain instantiate                                                                                      *)
+(* salt "" = plain instantiate.  An option set several times on the proxy has the value it was set to last: for    *)
+(* val = 1 the implementation side sets every option to a decoy value first.                                        *)
 Instantiate(val, sender, funds, label, admin, salt) ==
     /\ codes >= 1
     /\ CountOps("instantiate") < 2     \* keep histories busy with calls rather than instantiations
